@@ -246,7 +246,7 @@ func judge(r *rep.Reporter, c *rep.Case, sc *scenario, rg *rig, eng *engine, mar
 		if rc := replyCause(tx); rc != "none" {
 			return rc
 		}
-		if id := replyMsgID(tx); id != "" && id != msgID {
+		if id := replyMsgID(tx); id != "" && id != msgID && !tx.Nested {
 			// go-smtp hands the result of an earlier, abandoned BDAT transfer to this one
 			// (its Conn.dataResult field is shared with the goroutine of the old transfer)
 			return "reply-of-another-transaction"
